@@ -84,6 +84,17 @@ class World:
         self.models = {}        # dotted external name -> python callable(interp, args, kwargs)
         self.comp_models = {}   # (kind, method) -> callable(interp, comp, args, kwargs)
         self.exc_parents = dict(BUILTIN_EXC)
+        self._preload_errors()
+
+    def _preload_errors(self):
+        """class hierarchy of pysmi/error.py, read from the AST of the tree under verification"""
+        try:
+            src = SourceFile.get('pysmi/error.py')
+        except OSError:
+            return
+        for st in src.tree.body:
+            if isinstance(st, ast.ClassDef) and st.bases:
+                self.exc_parents[st.name] = ast.unparse(st.bases[0]).split('.')[-1]
 
     def module(self, dotted):
         if dotted in self.modules:
@@ -227,7 +238,9 @@ class Interp:
 
     # ------------------------------------------------------------------ utilities
     def fresh_any(self, hint='a'):
-        return SAny(self.ctx.fresh(PV, hint))
+        t = self.ctx.fresh(PV, hint)
+        self.ctx.assume(t != pv.PAbsent)       # PAbsent is the engine's "no value" marker, never a Python value
+        return SAny(t)
 
     def fresh_str(self, hint='s'):
         return SStr(self.ctx.fresh(z3.StringSort(), hint))
@@ -255,6 +268,8 @@ class Interp:
         return self.ctx.branch(t.t, label)
 
     def external(self, dotted):
+        if dotted == 'sys.version':
+            return self.fresh_str('sys.version')
         if dotted in self.world.models:
             return VBuiltin(dotted, self.world.models[dotted])
         return VModule(dotted)
@@ -366,6 +381,16 @@ class Interp:
             obj.fields['args'] = tuple(args)
             for k, v in kwargs.items():
                 obj.fields[k] = v
+        # class-level data attributes are visible through the instance: materialise the (immutable) defaults
+        # so that a by-value snapshot of the object keeps them
+        stack = [cls]
+        while stack:
+            c = stack.pop(0)
+            if c.node is not None:
+                for k, v in self.class_attrs(c).items():
+                    if k not in obj.fields and not k.startswith('__') and pv.is_concrete(v):
+                        obj.fields[k] = v
+            stack.extend(c.bases)
         return obj
 
     # ------------------------------------------------------------------ statements
@@ -407,7 +432,18 @@ class Interp:
         env.set(st.name, f)
 
     def st_Return(self, st, env):
-        raise ReturnSig(self.eval(st.value, env) if st.value is not None else None)
+        v = self.eval(st.value, env) if st.value is not None else None
+        c = self.contract
+        if c is not None and c.at_return and self.call_depth == 0 and self.fn_node is not None:
+            rets = [n for n in ast.walk(self.fn_node) if isinstance(n, ast.Return)]
+            rets.sort(key=lambda n: (n.lineno, n.col_offset))
+            k = [i + 1 for i, n in enumerate(rets) if n is st]
+            if k and k[0] in c.at_return:
+                from .apply import spec_bool
+                for name, ex in c.at_return[k[0]].items():
+                    self.ctx.oblige('%s.return%d.%s' % (c.id, k[0], name), spec_bool(self, ex, env), st.lineno,
+                                    'at-return', info={'clause': ex})
+        raise ReturnSig(v)
 
     def st_Break(self, st, env):
         raise BreakSig()
@@ -624,7 +660,7 @@ class Interp:
         if isinstance(v, VList):
             return v.to_seq()
         if isinstance(v, VSeqIter):
-            return v.seq
+            return v.to_seq()
         if isinstance(v, tuple):
             return pv.seq_of([lift(x) for x in v])
         if isinstance(v, SAny):
@@ -918,7 +954,11 @@ class Interp:
         raise Unsupported('starred expression')
 
     def ex_Call(self, e, env):
-        line = e.lineno
+        line = getattr(e, 'lineno', None)
+        f = e.func
+        # spec helpers get the raw AST (old, pre, forall, implies ... evaluate their arguments themselves)
+        if isinstance(f, ast.Name) and self.spec() and f.id in B.SPEC_FORMS and not env.has(f.id):
+            return B.SPEC_FORMS[f.id](self, e, env)
         # positional / keyword arguments
         args = []
         for a in e.args:
@@ -939,10 +979,6 @@ class Interp:
                     raise Unsupported('** of a symbolic mapping at line %d' % line)
             else:
                 kwargs[k.arg] = self.eval(k.value, env)
-        f = e.func
-        # spec helpers get the raw AST where needed (old, pre, forall ...)
-        if isinstance(f, ast.Name) and self.spec() and f.id in B.SPEC_FORMS:
-            return B.SPEC_FORMS[f.id](self, e, env)
         if isinstance(f, ast.Attribute):
             # super(X, self).m(...)
             if isinstance(f.value, ast.Call) and isinstance(f.value.func, ast.Name) and f.value.func.id == 'super':
